@@ -129,7 +129,9 @@ Theorem C12_source_facts :
   gen_open_exit_when_empty_or_self = true /\ gen_open_forwards_new_path_to_next_hop = true /\
   gen_open_next_hop_index = 0 /\ gen_open_drops = 1 /\
   gen_dial_uses_next_hop_connection = true /\ gen_dial_drops = 1 /\
-  gen_forward_prepends_self_to_path = true /\ gen_store_next_hop_is_sender_path_as_received = true /\
+  gen_forward_prepends_self_to_path = true /\ gen_forward_path_extension_unconditional = true /\
+  gen_display_name_cut_to_255_bytes = true /\ gen_ipnet_family_and_length_from_mask = true /\
+  gen_route_advertise_loop_period_is_advertise_interval = true /\ gen_store_next_hop_is_sender_path_as_received = true /\
   gen_peer_connected_sends_full_table = true /\ gen_peer_disconnect_drops_routes_of_all_tables = true.
 Proof. repeat split; reflexivity. Qed.
 End SourceFacts.
